@@ -20,40 +20,29 @@ Proof. exact nearest_exec_spec. Qed.
 Print Assumptions nearest_exec_meets_spec.
 
 (** ** totality *)
-(** the statement at full strength is FALSE for the faithful model (known finding
-    block_mapping:target-atm0-source-not-atm0): witness [src_of Atm1] -> [dst_of Atm0] *)
-Theorem block_mapping_total_refuted :
-  ~ (forall nearest self geo, nearest_spec nearest -> wf self -> wf geo ->
-       exists m cm, block_mapping nearest self geo = Ok (m, cm)).
-Proof. exact block_mapping_total_refuted_l. Qed.
-Print Assumptions block_mapping_total_refuted.
-
-(** all 3 x 3 atmosphere arrangements: exactly the two of the finding class raise (KeyError) *)
-Theorem block_mapping_atm_combinations : forall nearest, nearest_spec nearest -> forall self geo, wf self -> wf geo ->
-  match gatm geo, gatm self with
-  | Atm0, Atm1 | Atm0, Atm2 => block_mapping nearest self geo = Raise KeyError
-  | _, _ => exists m cm, block_mapping nearest self geo = Ok (m, cm)
-  end.
-Proof. exact block_mapping_atm_cases_l. Qed.
-Print Assumptions block_mapping_atm_combinations.
-
-(** outside the finding class: a mapping of exactly the target's blocks; every underground target
-    block gets an existing underground source block, every atmosphere target block an existing
+(** for all 3 x 3 atmosphere arrangements: a mapping of exactly the target's blocks; every underground
+    target block gets an existing underground source block, every atmosphere target block an existing
     atmosphere source block when the source has any *)
 Theorem block_mapping_total : forall nearest, nearest_spec nearest -> forall self geo, wf self -> wf geo ->
-  ~ atm_class self geo ->
   exists m cm, block_mapping nearest self geo = Ok (m, cm) /\ map fst m = block_name_list geo /\
     (forall b, In b (ug_blocks geo) -> exists sb, dget b m = Ok sb /\ In sb (ug_blocks self)) /\
     (gatm self <> Atm2 -> forall b, In b (atm_blocks geo) -> exists sb, dget b m = Ok sb /\ In sb (atm_blocks self)).
 Proof. exact block_mapping_total_l. Qed.
 Print Assumptions block_mapping_total.
 Theorem block_mapping_total_hypotheses_satisfiable :
-  nearest_spec nearest_exec /\ wf (src_low Atm1) /\ wf (dst_of Atm1) /\
-  ~ atm_class (src_low Atm1) (dst_of Atm1) /\ ug_blocks (dst_of Atm1) <> [] /\ atm_blocks (dst_of Atm1) <> [].
+  nearest_spec nearest_exec /\ wf (src_low Atm1) /\ wf (dst_of Atm0) /\
+  ug_blocks (dst_of Atm0) <> [] /\ atm_blocks (dst_of Atm0) <> [].
 Proof. exact total_hyps_sat. Qed.
 Print Assumptions block_mapping_total_hypotheses_satisfiable.
+(** the arrangement that raised KeyError before the repair (fixed: finding block_mapping:target-atm0-source-not-atm0) *)
+Theorem block_mapping_former_keyerror_example :
+  exists m cm, block_mapping nearest_exec (src_of Atm1) (dst_of Atm0) = Ok (m, cm) /\
+    dget (s2l "ATM 0") m = Ok (s2l "  a 0") /\ dget (s2l "  c 1") m = Ok (s2l "  b 1").
+Proof. exact former_keyerror_example. Qed.
+Print Assumptions block_mapping_former_keyerror_example.
 
-(** the corresponding atmosphere block: the source's single one, or the one over the nearest column *)
+(** the corresponding atmosphere block: the source's single one, or the one over the nearest column;
+    a single target atmosphere block over a per-column source gets the block over the first source column *)
 Theorem block_mapping_atmosphere : forall nearest, nearest_spec nearest -> forall self geo m cm, wf self -> wf geo ->
   block_mapping nearest self geo = Ok (m, cm) ->
   (gatm self = Atm0 -> forall b, In b (atm_blocks geo) -> dget b m = Ok (block_name self (l0name self) (atmcol self))) /\
@@ -61,7 +50,9 @@ Theorem block_mapping_atmosphere : forall nearest, nearest_spec nearest -> foral
      exists sc, In sc (gcols self) /\
        (forall c', In c' (gcols self) -> (dist2 (ccentre col) (ccentre sc) <= dist2 (ccentre col) (ccentre c'))%Z) /\
        dget (cname col) cm = Ok (cname sc) /\
-       dget (block_name geo (l0name geo) (cname col)) m = Ok (block_name self (l0name self) (cname sc))).
+       dget (block_name geo (l0name geo) (cname col)) m = Ok (block_name self (l0name self) (cname sc))) /\
+  (gatm self = Atm1 -> gatm geo = Atm0 ->
+     dget (block_name geo (l0name geo) (atmcol geo)) m = Ok (block_name self (l0name self) (cname (first_col self)))).
 Proof. exact block_mapping_atm_l. Qed.
 Print Assumptions block_mapping_atmosphere.
 
@@ -143,19 +134,15 @@ Theorem incon_first_is_atmosphere : forall sinc g, wf g -> gatm g = Atm0 -> map 
 Proof. exact incon_first_is_atm. Qed.
 Print Assumptions incon_first_is_atmosphere.
 
-(** with the default mappings the transfer succeeds outside the finding class whenever the source
-    object has a state for every source block, and raises KeyError inside the class *)
+(** with the default mappings the transfer succeeds for all nine arrangements whenever the source object
+    has a state for every source block and all states have the same number of variables *)
 Theorem incon_transfer_total : forall nearest, nearest_spec nearest -> forall sinc src geo, wf src -> wf geo ->
-  ~ atm_class src geo -> covers sinc src ->
+  covers sinc src -> uniform sinc ->
   exists new, incon_transfer nearest None sinc src geo = Ok new.
 Proof. exact incon_transfer_total_l. Qed.
 Print Assumptions incon_transfer_total.
-Theorem incon_transfer_keyerror : forall nearest, nearest_spec nearest -> forall sinc src geo, wf src -> wf geo ->
-  atm_class src geo -> incon_transfer nearest None sinc src geo = Raise KeyError.
-Proof. exact incon_transfer_raises. Qed.
-Print Assumptions incon_transfer_keyerror.
 Theorem incon_transfer_hypotheses_satisfiable :
-  map fst sinc1 = block_name_list (src_of Atm1) /\ covers sinc1 (src_of Atm1) /\
+  map fst sinc1 = block_name_list (src_of Atm1) /\ covers sinc1 (src_of Atm1) /\ uniform sinc1 /\
   exists new, incon_transfer nearest_exec None sinc1 (src_of Atm1) (dst_of Atm1) = Ok new /\
               map fst new = map s2l ["  c 0"; "  c 1"; "  c 2"]%string.
 Proof. exact incon_hyps_sat. Qed.
